@@ -818,3 +818,65 @@ Example slots_prefix_nonvacuous :
   = (Storage.Ok [("ab","2")]%string,
      SState d [CCursor; CSeek "a"; CCursor; CSeek "a"; CNext (Some "a"); CNext (Some "ab"); CNext (Some "b")]%string None).
 Proof. vm_compute. repeat split; reflexivity. Qed.
+
+(* ------------------------------------------------------------------ THE BATCH BOUNDARIES
+   (Proofs/ScanBatchBoundaryProofs.v).  [slots_scan_rows_batch] above relates the CONCATENATION of
+   the batches of the storage-level scan node to the slots; here the batches themselves: the
+   batches Model/ScanProj.v's Batch loop (scan + filter; identity projection; [fbatch_of flt] = a
+   filter that does not fail) cuts the slots of a scan into ARE the batches the storage-level
+   scan node of Model/ScanIO.v returns, Batch() call by Batch() call ([scan_polls_spec] is what
+   ScanIO's node does: Properties/C18.v scan_batches_agree). *)
+From KV Require Import Model.ScanBatches Proofs.ScanBatchBoundaryProofs Proofs.RunCountsProofs.
+
+Theorem scan_batches_are_scanproj : forall (flt : kvp -> bool) (B : nat) (sc : scan) (d : store),
+  1 <= B ->
+  ScanProj.drain_batch (fbatch_of flt) pbatch_id B (scan_slots sc d)
+  = Value.Ok (removelast (map snd (scan_polls_spec flt B sc d))).
+Proof. exact scan_batches_are_scanproj_lemma. Qed.
+Print Assumptions scan_batches_are_scanproj.
+
+(* what a caller polling plan.Batch() on `select <fields> where <filter>` (projection shape) sees:
+   the polls are determined -- per Batch() call its storage calls and its number of rows --,
+   they are ScanProj's batches, EVERY batch has fewer than 2B rows, and every batch that is
+   followed by at least two more Batch() calls (i.e. all but the last non-empty one) has AT
+   LEAST B rows.  "Exactly B" is NOT guaranteed: a Batch() call appends whole chunks of up to B
+   read pairs until it has >= B rows, so it may return up to 2B-1; the last non-empty batch may
+   be short.  Absent multi-get keys and rejected pairs make the call read on, never return early. *)
+Theorem select_text_batches_determined :
+  forall (fo : fops) (re : bytes -> bytes -> Value.res bool) (fmt_v : F fo -> string)
+         (flt : kvp -> bool) (gkey : kvp -> bytes) (B fuel : nat) (q : string) (pl : splanned fo)
+         (d : store) (l0 : list scall),
+  plan_stmt_text fo re fmt_v q = STOk pl -> sp_shape fo pl = SProj ->
+  1 <= B -> List.length d + plan_keys (PScan (sp_scan fo pl)) < fuel ->
+  let sc := sp_scan fo pl in
+  let ps := scan_polls_spec flt B sc d in
+  text_stmt fo re fmt_v q = Some (StSelect (text_fplan fo pl)) /\
+  (exists l, select_polls true flt gkey B fuel BatchMode (text_fplan fo pl) (SState d l0 None)
+             = (Storage.Ok (scan_init_calls sc ++ scan_init_calls sc, map (fun p => (fst p, List.length (snd p))) ps),
+                SState d (l0 ++ l) None)) /\
+  ScanProj.drain_batch (fbatch_of flt) pbatch_id B (scan_slots sc d) = Value.Ok (removelast (map snd ps)) /\
+  Forall (fun p => List.length (snd p) < 2 * B) ps /\
+  (forall i, S (S i) < List.length ps -> B <= List.length (snd (nth i ps ([], [])))).
+Proof. exact select_text_batches_determined_lemma. Qed.
+Print Assumptions select_text_batches_determined.
+
+(* non-vacuity, B = 2, full scan, filter value = x: the first Batch() returns THREE rows (it had 1
+   after the first chunk, read another chunk of 2 that both pass), the second returns the last
+   row alone (a short non-final batch: the end was seen), the third is the empty one *)
+Example batch_lengths_nonvacuous :
+  let d := [("a","x");("ab","y");("abc","x");("b","x");("c","y");("d","x")]%string in
+  let flt := fun kv : kvp => String.eqb (snd kv) "x" in
+  map (fun p => List.length (snd p)) (scan_polls_spec flt 2 SFull d) = [3; 1; 0] /\
+  map fst (scan_polls_spec flt 2 SFull d)
+  = [[CNext (Some "a"); CNext (Some "ab"); CNext (Some "abc"); CNext (Some "b")];
+     [CNext (Some "c"); CNext (Some "d"); CNext None];
+     [CNext None]]%string /\
+  ScanProj.drain_batch (fbatch_of flt) pbatch_id 2 (scan_slots SFull d)
+  = Value.Ok [[("a","x");("abc","x");("b","x")]; [("d","x")]]%string.
+Proof. vm_compute. repeat split; reflexivity. Qed.
+
+Example select_text_batches_determined_nonvacuous :
+  forall (fo : fops) (re : bytes -> bytes -> Value.res bool) (fmt_v : F fo -> string),
+  exists pl, plan_stmt_text fo re fmt_v "select key where key in ('a', 'zz', 'c') & value = 'x'" = STOk pl /\
+    sp_shape fo pl = SProj /\ sp_scan fo pl = SMget ["a";"c";"zz"]%string.
+Proof. intros. eexists. split; [vm_compute; reflexivity|]. split; vm_compute; reflexivity. Qed.
